@@ -6,7 +6,10 @@ Binding: replay of TLC behaviours into the real witness on sqlite (direct API an
 the step's spelling of the log id and the step's storage fault injected for real (a second connection
 to the database file holding a SHARED / RESERVED / EXCLUSIVE lock, a cancelled context), an independent
 monitor of stored rows and cosigned replies per 32-byte log id, and validation of invoke/return traces
-recorded from concurrent callers.
+recorded from concurrent callers.  History of signatures: `offered` (genuine STHs offered so far) and candidates
+whose signature bytes are those of another genuine STH (field `over`: replayed signature, donor offered before or
+not, of the addressed log or the other one); MCWitness HistNext (WitnessHist*.cfg) covers what was offered before
+x what is offered now.
 """
 import json
 import os
@@ -23,6 +26,10 @@ ASSUME = [
     "lock, INSERT fails under a RESERVED lock, every statement fails under an EXCLUSIVE lock) plus a context "
     "cancelled before the call; fault databases use _busy_timeout=0 (a locked statement fails at once instead of "
     "after 5 s); a fault lasts for one request (replay) or for a logged window (traces)",
+    "mis-signed STHs are: signed by a key that is no log's, signed by the other log, and carrying the signature bytes "
+    "of a genuine STH (offered to the witness earlier in the history, or never) over another size / root / timestamp; "
+    "history cover: two history-building updates of one log (genuine or bad-signature, accepted / refused for the proof / "
+    "lost to a commit fault / replayed signature) followed by every probe",
     "log-id spellings: configured string, unused trailing bits set, CR/LF inserted, padding dropped, URL-safe "
     "alphabet, leading/trailing blank; named clause AliasIsUnknown (only the configured string names a known log)",
 ]
@@ -48,12 +55,22 @@ def run(ctx, replay=None):
     if not cover:
         raise Infra("cover run exported no behaviours")
     behs += cover
+    # 2b. history cover: two history-building updates (accepted, refused for the proof, lost to a storage fault,
+    # bad signature), then every probe of the state (held, offered) reached: every content under the signature
+    # bytes of every STH offered so far (replayed signature), genuine STHs, a read
+    r = ctx.tlc("witness", "MCWitness", ctx.pick("WitnessHistSmall.cfg", "WitnessHist.cfg"), workers=1, count=False,
+                timeout=3000)
+    histc = r.records.get("BEH", [])
+    if not histc or not any(b[-1].get("replay") == "seen" for b in histc):
+        raise Infra("history cover exported no behaviour ending in a replayed signature of an STH offered before")
+    behs += histc
     r = ctx.tlc("witness", "MCWitness", "WitnessSim.cfg", simulate=ctx.pick(400, 5000), depth=20, count=False)
     sim = r.records.get("BEH", [])
     if not sim:
         raise Infra("simulation exported no behaviours")
     behs += sim
-    ctx.log("behaviours: %d cover + %d simulated" % (len(cover), len(sim)))
+    ctx.log("behaviours: %d cover + %d history cover + %d simulated (%d steps carry a replayed signature)" % (
+        len(cover), len(histc), len(sim), sum(1 for b in behs for s in b if s.get("replay", "none") != "none")))
     path = ctx.write_ndjson("behaviours.ndjson", behs)
     ctx.go_test("c19", run="TestReplay$", env=dict(env, VERIF_BEHAVIOURS=path), timeout=3000)
     # 3. concurrent callers: invoke/return traces validated by WitnessTrace.tla
